@@ -37,8 +37,8 @@ def cases(tier: str) -> List[Any]:
     out = []
     M = 3 if tier == "quick" else 4
     K = 6 if tier == "quick" else 8
-    for cfg in ("plain", "quota", "wtt0", "wtt1", "wttzero"):
-        for prefix in itertools.product(range(3), repeat=3):
+    for cfg in ("plain", "quota", "wtt0", "wtt1", "wttzero", "ackfuture", "rawpayload"):
+        for prefix in itertools.product(range(3), repeat=3 if tier == "quick" else 4):
             out.append({"M": M, "K": K, "cfg": cfg, "prefix": list(prefix)})
     return out
 
@@ -52,8 +52,11 @@ def harness(c: sym.Ctx, case: Dict[str, Any]) -> None:
         wtt = 0.0 if cfg == "wttzero" else 5.0
         P = 0 if cfg == "wttzero" else int(cfg[-1])
         outcomes = [c.choose(["return", "never"], f"outcome{k}") for k in range(M)]
-    spec = {"M": M, "kinds": ["valid"] * M, "outcomes": outcomes, "A": "sym", "P": P, "N": "sym" if cfg == "quota" else "none",
-            "wtt": wtt, "K": case["K"], "prefix": case["prefix"]}
+    kinds = ["valid"] * M
+    if cfg == "rawpayload":
+        kinds[1] = "malformed_raw"
+    spec = {"M": M, "kinds": kinds, "outcomes": outcomes, "A": "sym", "P": P, "N": "sym" if cfg == "quota" else "none",
+            "wtt": wtt, "K": case["K"], "prefix": case["prefix"], "ack_mode": "future" if cfg == "ackfuture" else False}
     r = _listen.run(c, spec)
     ev = r.lab.ev
     n_never = outcomes.count("never")
@@ -85,6 +88,10 @@ def harness(c: sym.Ctx, case: Dict[str, Any]) -> None:
         c.cover("wtt_elapsed")
         c.check(wtt is not None and elapsed >= wtt - 1e-9, "returns_with_running_tasks_only_after_wait_tasks_timeout",
                 unfinished=unfinished, wtt=wtt, elapsed=elapsed)
+    # --- 3b. ... including its acknowledgement
+    if not unfinished:
+        unacked = [i for i in taken if not any(e[0] == "ack" and e[1] == i for e in ev)]
+        c.check(not unacked, "every_taken_message_is_acknowledged_before_return", unacked=unacked, taken=taken)
     # --- 4. quota
     if cfg == "quota":
         c.check(len(taken) <= r.N, "never_accepts_more_than_N_messages", taken=len(taken), N=r.N)
